@@ -150,6 +150,8 @@ def _transfer(ctx, line, src, body_len, sf, wbit, corrupt=None, via="send_messag
     expect_deliver = 1 if corrupt is None else 0
     receiver.wait(lambda: len(receiver.delivered) >= before + expect_deliver, timeout=3.0)
     time.sleep(0.002)
+    if len(receiver.delivered) < before + expect_deliver:
+        receiver.confirm_absent(lambda: len(receiver.delivered) >= before + expect_deliver)
     got = receiver.delivered[before:]
     with line.lock:
         trace = list(line.trace)
